@@ -480,7 +480,7 @@ class FsRun:
                     if not (sh[0] == "modified" and sh[1]) and evs.count(sh) > 1:
                         dup.append(sh)
             if missing or extra or dup:
-                out.append({"op": c["op"], "missing": sorted(missing), "extra": sorted(extra), "dup": sorted(dup), "delivered": evs})
+                out.append({"op": c["op"], "opi_": c["opi"], "missing": sorted(missing), "extra": sorted(extra), "dup": sorted(dup), "delivered": evs})
         return out
 
 
